@@ -512,6 +512,7 @@ func init() {
 	handlers["C04"] = execHandler("C04")
 	handlers["C05"] = execHandler("C05")
 	handlers["C20"] = execHandler("C20")
+	handlers["C18C"] = execHandler("C18C")
 	handlers["C01"] = func(fs *flag.FlagSet) handler {
 		return func(tag string, raw []byte, st *Stats, wk *worker) {
 			switch tag {
@@ -538,6 +539,10 @@ func replayExecVector(raw []byte, st *Stats, wk *worker, prop string) {
 		return
 	}
 	st.Add("vectors", 1)
+	if prop == "C18C" {
+		replayC18C(&v, raw, st, b)
+		return
+	}
 	pr := abs.Print(&v.Doc, abs.DefaultLayout)
 	doc, err := parseDoc(pr.Text)
 	if err != nil {
@@ -716,3 +721,100 @@ func renameRoot(v abs.Value, tag string) abs.Value {
 }
 
 func sortStrings(s []string) []string { sort.Strings(s); return s }
+
+
+// ---- C18 clause (c) and the field-error part of (b): paths and locations of field errors ----
+
+var c18Layouts = []abs.Layout{
+	{NL: "\n", Indent: "  "},
+	{NL: "\r", Indent: "\t"},
+	{NL: "\r\n", Indent: " "},
+	{NL: "\n", Indent: "  ", Comment: " caf\u00e9 \U0001F600 comment"},
+	{NL: "\r\n", Indent: "", Comment: " x"},
+	{Compact: true},
+}
+
+// lineCol of byte offset off in text: LF, CR and CRLF (as one) terminate lines; 1-based.
+func lineColOf(text string, off int) (int, int) {
+	line, col := 1, 1
+	for i := 0; i < off && i < len(text); i++ {
+		switch text[i] {
+		case '\n':
+			line++
+			col = 1
+		case '\r':
+			if i+1 < len(text) && text[i+1] == '\n' {
+				continue // the LF of a CRLF ends the line
+			}
+			line++
+			col = 1
+		default:
+			col++
+		}
+	}
+	return line, col
+}
+
+func replayC18C(v *execVector, raw []byte, st *Stats, b *abs.Built) {
+	for li, lay := range c18Layouts {
+		pr := abs.Print(&v.Doc, lay)
+		doc, err := parseDoc(pr.Text)
+		if err != nil {
+			st.Mismatch(Mismatch{What: "generated document does not parse: " + err.Error(), Detail: pr.Text, Vector: raw})
+			return
+		}
+		if vr := graphql.ValidateDocument(&b.Schema, doc, nil); !vr.IsValid {
+			st.Add("skipped_invalid", 1)
+			return
+		}
+		for ri := range v.Runs {
+			run := &v.Runs[ri]
+			if run.Exp.Unspec || run.Exp.ReqErr {
+				continue
+			}
+			outs := v.Outs[run.Oi-1]
+			obs := runDo(b, pr.Text, v.OpName, varsMap(run.Inputs), newRunFor(b, v, outs, pr))
+			st.Add("executions", 1)
+			why, devs := judge(run, obs, false)
+			if why != "" {
+				st.Mismatch(Mismatch{What: "C18 (c) " + why, Detail: map[string]interface{}{"query": pr.Text, "outs": outs,
+					"observed_errs": obs.Errs, "observed_data": obs.Data.Canon()}, Vector: raw})
+				return
+			}
+			for _, d := range devs {
+				st.KnownHit(d)
+			}
+			// locations: the start of (one of) the failing field's occurrences
+			occOf := map[string][]int{}
+			for _, c := range run.Exp.Calls {
+				occOf[pathKey(c.P)] = c.Occ
+			}
+			for i, p := range obs.Errs {
+				ids, ok := occOf[pathKey(stripIdx(p))]
+				if !ok || len(ids) == 0 {
+					continue
+				}
+				got := obs.Locs[i]
+				okLoc := false
+				var want [][2]int
+				for _, id := range ids {
+					l, c := lineColOf(pr.Text, pr.Start[id])
+					want = append(want, [2]int{l, c})
+					if got == [2]int{l, c} {
+						okLoc = true
+					}
+				}
+				if !okLoc {
+					st.Mismatch(Mismatch{What: fmt.Sprintf("C18 (b) field error at path %v is located at %d:%d, the field starts at %v (layout %d)", p, got[0], got[1], want, li),
+						Detail: map[string]interface{}{"query": pr.Text, "outs": outs}, Vector: raw})
+					return
+				}
+				st.Add("locations_checked", 1)
+				if got[0] >= 2 {
+					st.Distinct("distinct_nontrivial", fmt.Sprintf("%d|%s|%v", li, pr.Text, p))
+				}
+			}
+		}
+	}
+	st.Sample(map[string]interface{}{"query": abs.Print(&v.Doc, c18Layouts[1]).Text, "layouts": len(c18Layouts)})
+}
